@@ -2068,7 +2068,12 @@ def coneqp(P, q, G = None, h = None, dims = None, A = None, b = None,
         if pcost == 0.0: relgap = None
         else: relgap = 0.0
 
-        return { 'status': 'optimal', 'x': x,  'y': y, 'z':
+        # The KKT system is solved once, without refinement: for an
+        # ill-conditioned system the residuals can exceed the tolerance.
+        if pres <= FEASTOL and dres <= FEASTOL: status = 'optimal'
+        else: status = 'unknown'
+
+        return { 'status': status, 'x': x,  'y': y, 'z':
             matrix(0.0, (0,1)), 's': matrix(0.0, (0,1)),
             'gap': 0.0, 'relative gap': 0.0,
             'primal objective': pcost,
